@@ -5,7 +5,7 @@ import copy, json, os, random
 from concurrent.futures import ProcessPoolExecutor
 from fractions import Fraction
 from . import solver_gen, solver_rec, spectab
-from .core import import_repo, Verdict, finish, Machinery, frac
+from .core import import_repo, Verdict, finish, Machinery, frac, mc_cached, add_mc
 from .tv import validate
 from .solver_drv import prop_of
 
@@ -117,10 +117,13 @@ def run_C12(tier, seed):
     traces = [t for r in res for t in r[0]]
     pairs = [r[1] for r in res]
     metas = {r[1]['id']: r[2] for r in res}
+    add_mc(v, mc_cached('MC_Solver', 'MC_Solver_quick.cfg' if tier == 'quick' else 'MC_Solver.cfg'),
+           'Solver.tla: every schedule of runs / continuations / resets / reruns on the same or a new Solver reproduces the reference trajectory (invariant C12_SplitAndRerun, guarded by the named deviation F4)')
+    add_mc(v, mc_cached('MC_Solver', 'MC_Solver_F4.cfg'), 'the same without the F4 guard: TLC must find the design-level counterexample of the known finding', expect_violation='C12_Unguarded')
     tv = validate('Trace_Solver', traces, workers_per_shard=1, shards=16, dfs_queue=True, timeout=7200)
     pv = validate('Trace_Pair', pairs)
-    v.states = tv.states + pv.states
-    v.transitions = tv.transitions + pv.transitions
+    v.states += tv.states + pv.states
+    v.transitions += tv.transitions + pv.transitions
     v.traces = len(traces) + len(pairs)
     v.evaluations = len(pairs)
     v.distinct = len(pairs)
